@@ -202,8 +202,9 @@ func verif14Type() p2p.Message_Type {
 		p2p.Message_Type(77)}[verif.Choice("type", 8)]
 }
 
-// VerifDispatchAnyFields: message body present, index any NON-NEGATIVE int32
-// (in range, at the end, far beyond), offset / length / error code any int32.
+// VerifDispatchAnyFields: message body present, index any int32 (negative, in
+// range, at the end, far beyond; announce-piece: non-negative only, see F3),
+// offset / length / error code any int32.
 func VerifDispatchAnyFields() {
 	verif14Options()
 	// index-carrying types on every torrent state class; the trivial types
@@ -224,10 +225,12 @@ func VerifDispatchAnyFields() {
 	}
 	e := verif14NewEnv(state)
 	idx := verif.Int32("index")
-	verif.Assume(idx >= 0)
+	// every type takes the full int32 range (negative indices were repaired
+	// upstream: e23eae0 for storage, c60f470 for announce-piece)
 	msg := verif14Adversarial(ty, true, idx)
 	e.d.dispatch(e.p, msg)
 	verif.Cover("index-beyond-torrent", idx >= 3)
+	verif.Cover("index-negative", idx < 0)
 	// a payload may legitimately complete a piece
 	for i := 0; i < 3; i++ {
 		if !e.have[i] && e.t.HasPiece(i) {
